@@ -504,4 +504,119 @@ mod verif_kani {
         std::mem::forget(exp);
         std::mem::forget(t);
     }
+
+    // ------------------------------------------------------------------
+    // bounded: combined down/up rewriting (`handle_transform_recursion!`):
+    // transform_down_up (closures) and rewrite (TreeNodeRewriter)
+    // ------------------------------------------------------------------
+    struct DU { d: [u8; 4], cd: [bool; 4], u: [u8; 4], cu: [bool; 4] }
+
+    /// independent reference: returns (rewritten tree, final recursion state); logs f_down as id,
+    /// f_up as id+100; `any` = some callback reported a change
+    fn ref_du(node: &N, p: &DU, log: &mut [u8; 8], n: &mut usize, any: &mut bool) -> (N, u8) {
+        let ix = (node.id % 10) as usize;
+        log[*n] = ix as u8; *n += 1;
+        let mut cur = N { id: node.id, kids: vec![] };
+        if p.cd[ix] { cur.id += 10; *any = true; }
+        let mut st = p.d[ix] % 3;
+        if st == 2 {
+            let mut k = 0; while k < node.kids.len() { cur.kids.push(node.kids[k].clone()); k += 1; }
+            return (cur, 2); // Stop: children untouched, f_up not called
+        }
+        if st == 0 {
+            let mut c = 0u8;
+            let mut k = 0;
+            while k < node.kids.len() {
+                if c != 2 {
+                    let (nk, s) = ref_du(&node.kids[k], p, log, n, any);
+                    cur.kids.push(nk);
+                    c = s;
+                } else {
+                    cur.kids.push(node.kids[k].clone());
+                }
+                k += 1;
+            }
+            st = c;
+        } else {
+            // Jump on the way down: children skipped (kept as they are), jump consumed
+            let mut k = 0; while k < node.kids.len() { cur.kids.push(node.kids[k].clone()); k += 1; }
+            st = 0;
+        }
+        if st == 0 {
+            log[*n] = ix as u8 + 100; *n += 1;
+            if p.cu[ix] { cur.id += 20; *any = true; }
+            st = p.u[ix] % 3;
+        }
+        (cur, st)
+    }
+
+    fn check_du(use_rewriter: bool) {
+        let p = DU { d: kani::any(), cd: kani::any(), u: kani::any(), cu: kani::any() };
+        let mut log = [255u8; 8];
+        let mut n = 0usize;
+        let res = if use_rewriter {
+            struct RW<'a> { p: &'a DU, log: &'a mut [u8; 8], n: &'a mut usize }
+            impl<'a> TreeNodeRewriter for RW<'a> {
+                type Node = N;
+                fn f_down(&mut self, mut node: N) -> Result<Transformed<N>> {
+                    let ix = (node.id % 10) as usize;
+                    self.log[*self.n] = ix as u8; *self.n += 1;
+                    if self.p.cd[ix] { node.id += 10; }
+                    Ok(Transformed::new(node, self.p.cd[ix], dec3(self.p.d[ix])))
+                }
+                fn f_up(&mut self, mut node: N) -> Result<Transformed<N>> {
+                    let ix = (node.id % 10) as usize;
+                    self.log[*self.n] = ix as u8 + 100; *self.n += 1;
+                    if self.p.cu[ix] { node.id += 20; }
+                    Ok(Transformed::new(node, self.p.cu[ix], dec3(self.p.u[ix])))
+                }
+            }
+            let mut rw = RW { p: &p, log: &mut log, n: &mut n };
+            tree4().rewrite(&mut rw)
+        } else {
+            let cell = std::cell::RefCell::new((&mut log, &mut n));
+            tree4().transform_down_up(
+                |mut node| {
+                    let ix = (node.id % 10) as usize;
+                    { let mut g = cell.borrow_mut(); let k = *g.1; g.0[k] = ix as u8; *g.1 += 1; }
+                    if p.cd[ix] { node.id += 10; }
+                    Ok(Transformed::new(node, p.cd[ix], dec3(p.d[ix])))
+                },
+                |mut node| {
+                    let ix = (node.id % 10) as usize;
+                    { let mut g = cell.borrow_mut(); let k = *g.1; g.0[k] = ix as u8 + 100; *g.1 += 1; }
+                    if p.cu[ix] { node.id += 20; }
+                    Ok(Transformed::new(node, p.cu[ix], dec3(p.u[ix])))
+                },
+            )
+        };
+        let mut exp_log = [255u8; 8];
+        let mut m = 0usize;
+        let mut any = false;
+        let t = tree4();
+        let (exp, st) = ref_du(&t, &p, &mut exp_log, &mut m, &mut any);
+        assert!(n == m, "C42.down_up.same_number_of_callbacks");
+        assert!(log == exp_log, "C42.down_up.documented_pre_post_order_with_jump_and_stop");
+        match &res {
+            Ok(tr) => {
+                assert!(tr.data == exp, "C42.down_up.tree_contains_exactly_the_replacements");
+                assert!(tr.transformed == any, "C42.down_up.changed_flag_iff_some_replacement_reported");
+                assert!(tr.tnr == dec3(st), "C42.down_up.final_recursion_state");
+            }
+            Err(_) => assert!(false, "C42.down_up.no_error"),
+        }
+        kani::cover!(n == 8 && any);
+        kani::cover!(n == 3);
+        std::mem::forget(res);
+        std::mem::forget(exp);
+        std::mem::forget(t);
+    }
+
+    #[kani::proof]
+    #[kani::unwind(9)]
+    fn c42_transform_down_up_tree4_bounded() { check_du(false); }
+
+    #[kani::proof]
+    #[kani::unwind(9)]
+    fn c42_rewrite_tree4_bounded() { check_du(true); }
 }
